@@ -57,7 +57,7 @@ ASSUMPTIONS = [
   "locality is asserted bitwise because both runs execute the same kernels on the CPU device in the same task order on identical inputs; island toggles leave the pre-solver fields bit-identical "
   "and are allowed to change solver outputs",
 ]
-BUDGET = {"quick": dict(examples=480, seconds=150, workers=16), "thorough": dict(examples=16000, seconds=1500, workers=16)}
+BUDGET = {"quick": dict(examples=480, seconds=420, workers=16), "thorough": dict(examples=16000, seconds=1500, workers=16)}
 
 _CAP = int(OT.NEFC | OT.NJMAX_NNZ | OT.BROADPHASE | OT.NARROWPHASE | OT.CCD | OT.NVMAX | OT.HFIELD | OT.EPA_HORIZON | OT.CONTACT_MATCH)
 _ITER = 100
